@@ -8,7 +8,8 @@
    2. Short writes: if SCHEDC_SHORTWRITE=<seed> is set, write() on fd 1 transfers
       only a pseudo-random prefix (1..4096 bytes) of what was asked for.
    3. Short reads: if SCHEDC_SHORTREAD=<seed> is set, read() on fd 0 returns at
-      most a pseudo-random 1..4096 bytes.
+      most a pseudo-random 1..SCHEDC_SHORTREAD_MAX (default 4096) bytes; likewise
+      SCHEDC_SHORTWRITE_MAX.
 
    Build: gcc -O2 -shared -fPIC -o schedc_heapcount.so schedc_heapcount.c -ldl */
 #define _GNU_SOURCE
@@ -36,6 +37,7 @@ static int initializing, initialized;
 static _Atomic int64_t live, peak, blocks;
 static volatile int64_t *shared;          /* {live, peak, blocks_at_peak} */
 static int short_write = -1, short_read = -1;
+static uint64_t short_read_max = 4096, short_write_max = 4096;
 static _Atomic uint64_t rng_w = 88172645463325252ull, rng_r = 1442695040888963407ull;
 
 static int in_boot(void *p) { return (char *)p >= boot && (char *)p < boot + sizeof boot; }
@@ -79,6 +81,12 @@ static void init(void)
   short_read = e != NULL;
   if (e)
     rng_r ^= strtoull(e, NULL, 10) * 0x9E3779B97F4A7C15ull;
+  e = getenv("SCHEDC_SHORTREAD_MAX");
+  if (e && strtoull(e, NULL, 10) >= 1)
+    short_read_max = strtoull(e, NULL, 10);
+  e = getenv("SCHEDC_SHORTWRITE_MAX");
+  if (e && strtoull(e, NULL, 10) >= 1)
+    short_write_max = strtoull(e, NULL, 10);
   initializing = 0;
   initialized = 1;
 }
@@ -185,7 +193,7 @@ ssize_t write(int fd, const void *buf, size_t n)
   if (!real_write)
     real_write = dlsym(RTLD_NEXT, "write");
   if (short_write == 1 && fd == 1 && n > 1) {
-    size_t k = 1 + next_rand(&rng_w) % 4096;
+    size_t k = 1 + next_rand(&rng_w) % short_write_max;
     if (k < n)
       n = k;
   }
@@ -199,7 +207,7 @@ ssize_t read(int fd, void *buf, size_t n)
   if (!real_read)
     real_read = dlsym(RTLD_NEXT, "read");
   if (short_read == 1 && fd == 0 && n > 1) {
-    size_t k = 1 + next_rand(&rng_r) % 4096;
+    size_t k = 1 + next_rand(&rng_r) % short_read_max;
     if (k < n)
       n = k;
   }
